@@ -87,7 +87,7 @@ def Dom.wf {K} : Dom K → Bool
   | .circle v c r | .sphere v c r => !c.args.contains v && !r.args.contains v
   | .union a b | .cut a b | .inter a b => a.wf && b.wf && a.vars == b.vars
   | .prod a b => a.wf && b.wf && b.freeVars.all (fun x => !a.vars.contains x) &&
-      a.innerNeeds.all (fun x => !b.vars.contains x) && b.innerNeeds.all (fun x => !a.vars.contains x)
+      a.innerNeeds.all (fun x => !b.vars.contains x)
   | .translate v d t => d.wf && d.vars == [v] && !t.args.contains v
   | .rotate v d m c => d.wf && d.vars == [v] && !m.args.contains v && !c.args.contains v
   | .bdry d | .bdryL d | .bdryR d => d.wf
